@@ -310,11 +310,14 @@ func (p liveCfg) config() circuit.Config {
 	cfg.Execution.Timeout = time.Duration(p.Timeout)
 	cfg.Execution.MaxConcurrentRequests = p.Max
 	cfg.Execution.IgnoreInterrupts = p.IgnoreInt
+	// the predicate is asked about the CALLER CONTEXT's error (context.Canceled / DeadlineExceeded), not about what
+	// the run function returned: "true" says yes to context errors only, "false" says no to context errors only
+	isCtxErr := func(err error) bool { return err == context.Canceled || err == context.DeadlineExceeded }
 	switch p.IE {
 	case "true":
-		cfg.Execution.IsErrInterrupt = func(error) bool { return true }
+		cfg.Execution.IsErrInterrupt = func(err error) bool { return isCtxErr(err) }
 	case "false":
-		cfg.Execution.IsErrInterrupt = func(error) bool { return false }
+		cfg.Execution.IsErrInterrupt = func(err error) bool { return !isCtxErr(err) }
 	}
 	cfg.Fallback.Disabled = p.FbDisabled
 	cfg.Fallback.MaxConcurrentRequests = p.FbMax
